@@ -501,4 +501,10 @@ WITNESSES = [
      "new": "\tif (((struct pdu_ipv4 *)pdu)->flags == 1) {\n\t\trtval = pfx_table_remove(pfx_table, &pfxr);\n\t\tif (rtval == PFX_RECORD_NOT_FOUND)\n\t\t\trtval = PFX_SUCCESS;\n\t} else if"},
     {"id": "C03.w13-spki-shadow-never-initialised", "rule": "C03.R4", "file": PK,
      "old": "\t\t\t\tspki_table_init(spki_shadow_table, NULL);\n", "new": ""},
+    {"id": "C03.w14-update-withdraws-from-live-table", "rule": "C03.R5", "file": PK,
+     "old": "\t\trtval = pfx_table_remove(pfx_table, &pfxr);\n\t} else {\n\t\tconst char txt[] = \"Prefix PDU with invalid flags value received\";",
+     "new": "\t\trtval = pfx_table_remove(rtr_socket->pfx_table, &pfxr);\n\t} else {\n\t\tconst char txt[] = \"Prefix PDU with invalid flags value received\";"},
+    {"id": "C03.w15-spki-update-returns-table-code", "rule": "C03.R6", "file": PK,
+     "old": "\t\trtr_send_error_pdu_from_host(rtr_socket, pdu, pdu_size, DUPLICATE_ANNOUNCEMENT, NULL, 0);\n\t\trtr_change_socket_state(rtr_socket, RTR_ERROR_FATAL);\n\t\treturn RTR_ERROR;\n\t} else if (rtval == SPKI_RECORD_NOT_FOUND) {",
+     "new": "\t\trtr_send_error_pdu_from_host(rtr_socket, pdu, pdu_size, DUPLICATE_ANNOUNCEMENT, NULL, 0);\n\t\trtr_change_socket_state(rtr_socket, RTR_ERROR_FATAL);\n\t\treturn rtval;\n\t} else if (rtval == SPKI_RECORD_NOT_FOUND) {"},
 ]
